@@ -65,7 +65,7 @@ func init() {
 		Assume:      []string{"sort.Sort(sort.Reverse(sort.IntSlice(x))) leaves x in descending order"},
 	})
 	register(&propDef{ID: "C03",
-		Rules: []func(*Ctx){onlyObligations(ruleLockOrder, func(o *Obligation) bool { return o.Rule == "R-LOCKORDER/self" }), ruleIdx, ruleWindows, ruleOrderO4, ruleErrL3, ruleClientCache, ruleStreamClose,
+		Rules: []func(*Ctx){onlyObligations(ruleSlot, func(o *Obligation) bool { return strings.HasSuffix(o.Construct, ".send") }), onlyObligations(ruleLockOrder, func(o *Obligation) bool { return o.Rule == "R-LOCKORDER/self" }), ruleIdx, ruleWindows, ruleOrderO4, ruleErrL3, ruleClientCache, ruleStreamClose,
 			ruleExit, ruleCtx, ruleBound, ruleWG,
 			scoped(ruleErrL1Scoped, connectPath), scoped(ruleErrL2Scoped, connectPath),
 		},
@@ -75,7 +75,7 @@ func init() {
 		Assume:      []string{"yamux with default config (keep-alive on) fails a session whose peer is gone", "grpc-go fails RPCs on a closed connection"},
 	})
 	register(&propDef{ID: "C04",
-		Rules: []func(*Ctx){onlyObligations(ruleLockOrder, func(o *Obligation) bool { return o.Rule == "R-LOCKORDER/self" }), ruleProcNil, ruleKilledFlag, onlyObligations(ruleDrain, func(o *Obligation) bool { return strings.Contains(o.Construct, "loop ends on read error") }),
+		Rules: []func(*Ctx){ruleRunnerWait, onlyObligations(ruleLockOrder, func(o *Obligation) bool { return o.Rule == "R-LOCKORDER/self" }), ruleProcNil, ruleKilledFlag, onlyObligations(ruleDrain, func(o *Obligation) bool { return strings.Contains(o.Construct, "loop ends on read error") }),
 			ruleWindows, ruleRunnerKill, ruleKillCtx, ruleOrderO4,
 			ruleKill, ruleBoundRPC, scoped(ruleBoundScoped, fnIn("Client.Kill", "CleanupClients")), ruleSibClose, ruleWG,
 			guardOn("Client.", "managedClients", "RPCServer.DoneCh", "GRPCServer.broker"), ruleClose1,
@@ -86,7 +86,7 @@ func init() {
 		Assume:      []string{"context.WithTimeout bounds a unary gRPC call", "os.Process.Kill delivers SIGKILL"},
 	})
 	register(&propDef{ID: "C05",
-		Rules: []func(*Ctx){onlyObligations(ruleLockOrder, func(o *Obligation) bool { return o.Rule == "R-LOCKORDER/self" }), onlyObligations(ruleOnce, func(o *Obligation) bool { return strings.Contains(o.Construct, "launch gate") }), ruleKillCtx, ruleOrderO4,
+		Rules: []func(*Ctx){ruleRunnerKill, onlyObligations(ruleLockOrder, func(o *Obligation) bool { return o.Rule == "R-LOCKORDER/self" }), onlyObligations(ruleOnce, func(o *Obligation) bool { return strings.Contains(o.Construct, "launch gate") }), ruleKillCtx, ruleOrderO4,
 			ruleOrderStart, scoped(ruleErrL2Scoped, startPath), scoped(ruleErrL1Scoped, startPath), ruleKill, ruleSocketDir,
 			scoped(ruleBoundScoped, fnIn("Client.Start")), onlyObligations(ruleDrain, func(o *Obligation) bool { return strings.Contains(o.Construct, "loop ends on read error") }),
 		},
@@ -115,7 +115,7 @@ func init() {
 		NotDecided:  "routing under all interleavings; that grpc-go connects to the address it was given.",
 	})
 	register(&propDef{ID: "C08",
-		Rules: []func(*Ctx){onlyObligations(ruleRunDispatch, func(o *Obligation) bool { return o.Func == "GRPCBroker.Run" || o.Func == "" }), ruleKnockTable, ruleMuxOnlyGRPC, ruleIDRoles, ruleDeadline, ruleLockPair, ruleGetOrCreate,
+		Rules: []func(*Ctx){ruleWindows, onlyObligations(ruleRunDispatch, func(o *Obligation) bool { return o.Func == "GRPCBroker.Run" || o.Func == "" }), ruleKnockTable, ruleMuxOnlyGRPC, ruleIDRoles, ruleDeadline, ruleLockPair, ruleGetOrCreate,
 			ruleOrderO8, ruleMuxSer, ruleSlot, ruleIDKnock, guardOn("grpcmux.", "GRPCBroker.serverStreams", "GRPCBroker.clientStreams"),
 		},
 		Technique:   "dominance query (listener registration before knock goroutine), must-held lockset for the serialised dial, channel-capacity check, id origin resolution",
@@ -123,7 +123,7 @@ func init() {
 		NotDecided:  "the four-goroutine hand-off under all schedules; behaviour when brokered connections are not established sequentially (excluded by the API contract).",
 	})
 	register(&propDef{ID: "C09",
-		Rules: []func(*Ctx){ruleExpiryDrain, ruleRunDispatch, onlyObligations(ruleSibClose, func(o *Obligation) bool { return strings.HasPrefix(o.Construct, "closes the") }), ruleWindows, ruleSlotCapacityOne, ruleBrokerCloseCloses, ruleIDRoles, ruleLockPair, ruleLockOrder, ruleRunNonBlocking, ruleStreamClose,
+		Rules: []func(*Ctx){ruleSlot, ruleExpiryDrain, ruleRunDispatch, onlyObligations(ruleSibClose, func(o *Obligation) bool { return strings.HasPrefix(o.Construct, "closes the") }), ruleWindows, ruleSlotCapacityOne, ruleBrokerCloseCloses, ruleIDRoles, ruleLockPair, ruleLockOrder, ruleRunNonBlocking, ruleStreamClose,
 			ruleLockBlock, scoped(ruleBoundScoped, fnIn("MuxBroker.Accept", "MuxBroker.Run", "MuxBroker.timeoutWait", "MuxBroker.Dial", "GRPCBroker.DialWithOptions", "GRPCBroker.knock", "GRPCBroker.timeoutWait", "GRPCBroker.Run", "GRPCBroker.listenForKnocks", "GRPCBroker.Accept", "grpcmux.GRPCServerMuxer.session")),
 			ruleRes, ruleExpiry, ruleClose1,
 		},
@@ -132,7 +132,7 @@ func init() {
 		NotDecided:  "the expiry-instant race as a timing fact (its harmful effect, a blocking receive under the lock, is what R-LOCKBLOCK excludes); goroutine termination after Close.",
 	})
 	register(&propDef{ID: "C10",
-		Rules:       []func(*Ctx){ruleIdxOutput, ruleKVForward, ruleJSONKeys, ruleDrainSink, ruleStdioSequential, ruleStdoutLines, ruleStderrNewline, rulePanicFlag, ruleAssert, ruleDrain, ruleOrderO4, ruleLogLevels, onlyObligations(ruleWG, func(o *Obligation) bool { return strings.Contains(o.Construct, "pipe") })},
+		Rules:       []func(*Ctx){ruleLoopCarried, ruleIdxOutput, ruleKVForward, ruleJSONKeys, ruleDrainSink, ruleStdioSequential, ruleStdoutLines, ruleStderrNewline, rulePanicFlag, ruleAssert, ruleDrain, ruleOrderO4, ruleLogLevels, onlyObligations(ruleWG, func(o *Obligation) bool { return strings.Contains(o.Construct, "pipe") })},
 		Technique:   "call-graph reachability from the reader goroutines + type-assertion form check; loop-exit analysis against a reader effect table; case-to-method table agreement",
 		Explanation: "Decides: no single-result type assertion is reachable from the stdout/stderr reader goroutines (R-ASSERT); the stderr loop ends only on a non-nil read error and every successfully read chunk passes config.Stderr.Write(line) before the next read; the stdout scanner's early stop (ErrTooLong) is followed by a drain of the same reader (R-DRAIN); the drain goroutine for the line channel is registered right after its producer (O4); each [LEVEL] prefix and hclog level is logged with the method of the same name, panic: with Error, default Debug or Error inside a panic trace (R-TABLE/levels). Every scanned stdout line is handed on (R-DRAIN/lines); the goroutines reading the two pipes are counted in the WaitGroup the reaper waits for before runner.Wait (R-WG); chunks are forwarded by the loop that received them (R-ORDER/stdio). Each hclog key read from the JSON record is the key removed from the remainder; the fallback drain of stdout copies to io.Discard. Constant indexes/slice bounds on plugin-derived strings and slices in the reader goroutines are covered by an established length, and never applied to an unmeasured call result (R-IDX/out); every element of the JSON key/value remainder reaches every append of its loop (R-TABLE/kv); the stderr read loop ends on a read error.",
 		NotDecided:  "newline/continuation reconstruction for every buffer size (value-level); hclog's own formatting.",
@@ -145,7 +145,7 @@ func init() {
 		NotDecided:  "byte-exactness and ordering themselves (gRPC stream, yamux and io.Copy contracts); data written before the host attaches.",
 	})
 	register(&propDef{ID: "C12",
-		Rules:       []func(*Ctx){cfgWritersFor("ClientConfig.TLSConfig", "ClientConfig.AutoMTLS", "ServeConfig.TLSProvider"), ruleCtorStoresTLS, ruleTLSConfig, ruleTLSPools, ruleTLSUse, ruleCertGen, ruleAutoMTLSGate, ruleEnvCertOnly, scoped(ruleErrL2Scoped, fnIn("Client.Start", "Client.loadServerCert")), scoped(ruleErrL1Scoped, fnIn("Client.loadServerCert"))},
+		Rules:       []func(*Ctx){cfgWritersFor("ClientConfig.TLSConfig", "ClientConfig.AutoMTLS", "ServeConfig.TLSProvider"), onlyObligations(ruleEnv, func(o *Obligation) bool { return o.Rule == "R-ORDER/O5" && strings.Contains(o.Construct, "before the runner is created") }), ruleCtorStoresTLS, ruleTLSConfig, ruleTLSPools, ruleTLSUse, ruleCertGen, ruleAutoMTLSGate, ruleEnvCertOnly, scoped(ruleErrL2Scoped, fnIn("Client.Start", "Client.loadServerCert")), scoped(ruleErrL1Scoped, fnIn("Client.loadServerCert"))},
 		Technique:   "composite-literal and field-store audit of every tls.Config in scope; origin resolution of certificate pools; provenance of TLS options at every listener/dial constructor call site",
 		Explanation: "Decides what go-plugin itself contributes to mutual authentication: both tls.Config literals require and verify client certificates, set MinVersion >= TLS 1.2, carry the freshly generated pair and no verification bypass, and no store weakens them (R-TLS/config); RootCAs and ClientCAs are, on both sides, a fresh pool that received exactly the peer's handshake certificate (R-TLS/pools); every gRPC server factory call, dialGRPCConn call and broker construction passes the owner's TLS config, the insecure dial option is dominated by tls == nil, and the net/rpc listener/conn are wrapped under a non-nil config (R-TLS/use); the two certificates travel in PLUGIN_CLIENT_CERT and handshake field 6; a certificate that cannot be parsed or pinned fails the start (R-ERR on Start/loadServerCert). The credential generator draws key and certificate from crypto/rand.Reader, self-signs with the generated key over its public half, and returns that same key (R-TLS/certgen). The server builds the mutual-TLS configuration on every path on which a client certificate is present and no provider configuration exists, and the only stores to ClientConfig.TLSConfig assign the audited literal (R-TLS/automtls). The client-certificate variable tested by the AutoMTLS gate holds the environment value (single assignment); TLSConfig/AutoMTLS/TLSProvider are assigned only at the reviewed site (R-CFG/writers).",
 		NotDecided:  "that crypto/tls enforces what is configured.",
@@ -159,19 +159,19 @@ func init() {
 		Assume:      []string{"subtle.ConstantTimeCompare returns 1 iff the slices have equal length and contents"},
 	})
 	register(&propDef{ID: "C14",
-		Rules:       []func(*Ctx){cfgWritersFor("ClientConfig.AllowedProtocols", "ClientConfig.GRPCBrokerMultiplex", "ClientConfig.TLSConfig", "ClientConfig.AutoMTLS", "ClientConfig.Reattach", "ClientConfig.RunnerFunc", "ServeConfig.GRPCServer", "ServeConfig.TLSProvider"), ruleTLSConfig, ruleTranslateDirections, ruleDialOptions, ruleHostEnvFilter, ruleMuxOnlyGRPC, ruleCtorStoresTLS, ruleGateExcl, ruleGateProtoMux, ruleSibDispense, ruleSibSwitch, ruleOrderStart, ruleTLSUse},
+		Rules:       []func(*Ctx){cfgWritersFor("ClientConfig.AllowedProtocols", "ClientConfig.GRPCBrokerMultiplex", "ClientConfig.TLSConfig", "ClientConfig.AutoMTLS", "ClientConfig.Reattach", "ClientConfig.RunnerFunc", "ServeConfig.GRPCServer", "ServeConfig.TLSProvider"), onlyObligations(ruleEnv, func(o *Obligation) bool { return o.Rule == "R-ORDER/O5" && strings.Contains(o.Construct, "before the runner is created") }), ruleWindows, ruleVersionNegotiation, ruleTLSConfig, ruleTranslateDirections, ruleDialOptions, ruleHostEnvFilter, ruleMuxOnlyGRPC, ruleCtorStoresTLS, ruleGateExcl, ruleGateProtoMux, ruleSibDispense, ruleSibSwitch, ruleOrderStart, ruleTLSUse},
 		Technique:   "dominance queries for configuration gates, sibling cross-check of Dispense implementations and protocol switches, TLS option provenance",
 		Explanation: "Decides: the exclusivity checks (exactly one of Cmd/Reattach/RunnerFunc; SecureConfig or multiplexing with Reattach) return errors before any launch site (G-excl); the announced protocol must be in AllowedProtocols and the multiplexing field must be present and true when requested, failing with an error that is or wraps ErrGRPCBrokerMuxNotSupported (G-proto, G-mux); all three Dispense implementations return a non-nil error on a map miss; Client() and Serve switch over both protocols with an error/panic default; NewClient defaults AllowedProtocols to exactly net/rpc (R-SIB); refused configurations terminate the plugin (O3); plaintext is used only when no TLS config exists (R-TLS/use). The yamux server muxer wraps the listener only on the gRPC arm of the protocol switch. dialGRPCConn lifts the message size limit in both directions (R-SIB/dialopts); translation directions (R-ID/translate); the host-environment filter drops the feature variables whatever their value. Every store to Client.address in Start is behind all handshake gates, including the evaluation of the multiplexing request (all commits, not only the last); both tls.Config literals require client certificates (R-TLS/config); the option fields are assigned only at the reviewed sites (R-CFG/writers).",
 		NotDecided:  "the end-to-end behaviour of each cell of the configuration matrix.",
 	})
 	register(&propDef{ID: "C15",
-		Rules:       []func(*Ctx){cfgWritersFor("ReattachConfig.Test", "ReattachConfig.Protocol", "ReattachConfig.Addr", "ClientConfig.Reattach"), ruleProcHandle, onlyObligations(ruleSibClose, func(o *Obligation) bool { return strings.HasPrefix(o.Construct, "Quit ") }), ruleRunnerKill, ruleReattach, ruleSentinelReattach, ruleExit, ruleGateExcl},
+		Rules:       []func(*Ctx){cfgWritersFor("ReattachConfig.Test", "ReattachConfig.Protocol", "ReattachConfig.Addr", "ClientConfig.Reattach"), ruleRunnerWait, ruleProcHandle, onlyObligations(ruleSibClose, func(o *Obligation) bool { return strings.HasPrefix(o.Construct, "Quit ") }), ruleRunnerKill, ruleReattach, ruleSentinelReattach, ruleExit, ruleGateExcl},
 		Technique:   "dominance (runner recorded only outside test mode), field-provenance of address/protocol, sentinel-return check, exit bookkeeping",
 		Explanation: "Decides: in reattach the store to Client.runner is dominated by the false edge of Reattach.Test; address and protocol come from the ReattachConfig with net/rpc as default; Client.ReattachConfig() and the test-mode literal in Serve fill Protocol, Addr, Pid, Test from the negotiated protocol, the listener address, the pid and true; both failure paths of the reattach probe return ErrProcessNotFound; the reattach goroutine cancels the context and marks exit. Both runner Kill implementations call os.Process.Kill on every path with a process (R-SIB/runnerkill). The control-connection server ends the plugin only on an edge on which the quit flag is known to be set. The process handle stored in the attached runner is not released (R-RES/handle); the reattach configuration fields are never assigned by the library (R-CFG/writers).",
 		NotDecided:  "that the address reaches the same plugin instance (a run-time value).",
 	})
 	register(&propDef{ID: "C16",
-		Rules:       []func(*Ctx){cfgWritersFor("HandshakeConfig.MagicCookieKey", "HandshakeConfig.MagicCookieValue"), onlyObligations(ruleHostEnvFilter, func(o *Obligation) bool { return strings.Contains(o.Construct, "PLUGIN_MULTIPLEX_GRPC") }), ruleServeMuxExit, ruleServeServes, ruleCookie, ruleOrderServe, ruleHandshakeTable, ruleStdout},
+		Rules:       []func(*Ctx){ruleVersionNegotiation, cfgWritersFor("HandshakeConfig.MagicCookieKey", "HandshakeConfig.MagicCookieValue"), onlyObligations(ruleHostEnvFilter, func(o *Obligation) bool { return strings.Contains(o.Construct, "PLUGIN_MULTIPLEX_GRPC") }), ruleServeMuxExit, ruleServeServes, ruleCookie, ruleOrderServe, ruleHandshakeTable, ruleStdout},
 		Technique:   "dominance of listener/print sites by the cookie gate, statement ordering in Serve, format-string/argument table extraction, who-may-write audit of os.Stdout",
 		Explanation: "Decides: the empty key/value test and the exact != comparison of os.Getenv(key) with the value set exit code 1 and return before any listen or print site, and the deferred os.Exit reads that variable (G-cookie); the listener and server.Init precede the handshake print, print and Sync precede the os.Stdout swap (O6); the line is Sprintf(\"%d|%d|%s|%s|%s|%s\") of core version, negotiated version, listener network/address, protocol and certificate, with a seventh field only under os.Getenv(PLUGIN_MULTIPLEX_GRPC) != \"\" (R-TABLE/handshake); the only write to the real stdout in scope is that print (R-STDOUT). Both ServerProtocol.Serve implementations reach the accept loop on the announced listener on every path (nothing fallible between the print and accepting). ServeMux exits with status 1 on improper invocation. The inherited PLUGIN_MULTIPLEX_GRPC is filtered from the host environment (the seventh field appears only when this host asked); the magic cookie fields are never assigned (R-CFG/writers).",
 		NotDecided:  "the exit status as observed by the OS; that a listening socket queues connections before Accept (kernel contract).",
@@ -184,7 +184,9 @@ func init() {
 		Assume:      []string{"exec.Cmd de-duplicates Env keeping the last value"},
 	})
 	register(&propDef{ID: "C18",
-		Rules:       []func(*Ctx){ruleBrokerListeners, ruleIDRoles, ruleBrokerCloseCloses, onlyObligations(ruleSibClose, func(o *Obligation) bool { return strings.HasPrefix(o.Construct, "closes the") }), ruleWrapClose, ruleRes, ruleSocketDir, ruleStopClosesBroker, ruleWG, ruleBound},
+		Rules:       []func(*Ctx){ruleClose1, ruleBrokerListeners, ruleIDRoles, ruleBrokerCloseCloses, onlyObligations(ruleSibClose, func(o *Obligation) bool {
+			return strings.HasPrefix(o.Construct, "closes the") || strings.HasPrefix(o.Construct, "Shutdown stops")
+		}), ruleWrapClose, ruleRes, ruleSocketDir, ruleStopClosesBroker, ruleWG, ruleBound},
 		Technique:   "wrapper-closes-wrapped audit of every net.Listener implementation, resource typestate (listener closed on every return), Kill path enumeration",
 		Explanation: "Decides: every module type that implements net.Listener and is built from a listener retains it and closes it on every path through Close; rmListener also runs its extra close function and the file listener removes the path it listens on (R-WRAPCLOSE); Serve and AcceptAndServe close their listener on every return after creation (R-RES, O7); Kill removes the socket directory on every non-early exit (R-RES/socketdir); Stop/GracefulStop close the broker; Kill waits for the management goroutines (R-WG); of the goroutine clause the necessary condition that no go-plugin goroutine can park forever: every blocking operation is non-blocking, timer-bounded, cancellation-terminated or in the reviewed table with its wake-up argument (R-BOUND). Both ClientProtocol.Close implementations close connection and broker on every path on which no close step failed (R-SIB/close). MuxBroker.Close closes the session; accept/dial pending tables are not mixed (R-ID/role). Every brokered listener Accept creates is recorded in the broker, GRPCBroker.Close closes the recorded listeners in its own goroutine, and GRPCServer.Stop closes the broker before it stops the server, so the socket files are gone before the plugin process can exit (R-RES/brokerls).",
 		NotDecided:  "the rest of the goroutine clause: that each loop actually exits within seconds of Kill is a liveness property over runtime events; R-BOUND only excludes operations that can wait forever.",
